@@ -61,6 +61,7 @@ type History struct {
 	Config   Config `json:"config"`
 	Steps    []Step `json:"steps"`
 	Note     string `json:"note,omitempty"`
+	ProbeEvery int `json:"probe_every,omitempty"`
 }
 
 func (h *History) Save(path string) error {
@@ -97,6 +98,8 @@ type TxOutcome struct {
 	Val    string
 	Dst    string
 	Amount math.Int
+	PendingMod map[string]bool // validators for which the module had >= 1 base unit of staking rewards pending before the step
+	PendingCoins map[string]sdk.Coins
 }
 
 type SlashRecord struct {
@@ -125,6 +128,8 @@ type BlockOutcome struct {
 	Slashes  []*SlashRecord
 	Matured  []ShadowUnb   // shadow unbondings that had to be paid in this end-block
 	MaturedR []ShadowRedel // shadow redelegations that had to disappear in this end-block
+	PendingMod map[string]bool
+	PendingCoins map[string]sdk.Coins
 	shUnbAfterEnd []string // reference unbonding list after maturing, before this block's slashes
 	tainted  bool          // a slash callback failed in this block: reference lists were resynchronised
 }
@@ -272,6 +277,8 @@ type Runner struct {
 	ProbeEvery int
 	LastRes    string
 	haltAfter  bool
+	Rw *RewardShadow
+	NeedPending bool // compute the module's pending staking rewards per validator before every step
 	PoolShort  bool // set by the C12 machinery when the rewards pool cannot pay all claims (recorded finding)
 }
 
@@ -328,8 +335,52 @@ func slashObserver(ctx context.Context, _ keeper.Keeper, val sdk.ValAddress, f m
 	r.slashQ = append(r.slashQ, rec)
 }
 
+// PendingModRewards reads, on a discarded branch, what x/distribution currently owes the module
+// account per validator (truncated coins; only validators with >= 1 base unit of some denom).
+func (r *Runner) PendingModRewards() (map[string]bool, map[string]sdk.Coins) {
+	w := r.W
+	out := map[string]bool{}
+	coins := map[string]sdk.Coins{}
+	cctx, _ := w.Ctx.CacheContext()
+	for _, vo := range r.Cur.ValOrder {
+		v := r.Cur.Vals[vo]
+		if !v.Exists || !v.HasModDel {
+			continue
+		}
+		func() {
+			defer func() { _ = recover() }()
+			va, _ := sdk.ValAddressFromBech32(vo)
+			val, err := w.App.StakingKeeper.Validator(cctx, va)
+			if err != nil {
+				return
+			}
+			del, err := w.App.StakingKeeper.Delegation(cctx, w.ModAddr, va)
+			if err != nil {
+				return
+			}
+			end, err := w.App.DistrKeeper.IncrementValidatorPeriod(cctx, val)
+			if err != nil {
+				return
+			}
+			rw, err := w.App.DistrKeeper.CalculateDelegationRewards(cctx, val, del, end)
+			if err != nil {
+				return
+			}
+			c, _ := rw.TruncateDecimal()
+			if !c.IsZero() {
+				out[vo] = true
+				coins[vo] = c
+			}
+		}()
+	}
+	return out, coins
+}
+
 func (r *Runner) ExecTx(s Step) *TxOutcome {
 	o := &TxOutcome{Idx: r.Idx, Step: s, Pre: r.Cur, Amount: math.ZeroInt()}
+	if r.NeedPending {
+		o.PendingMod, o.PendingCoins = r.PendingModRewards()
+	}
 	w := r.W
 	if s.A >= 0 && s.A < len(w.Actors) {
 		o.Actor = w.Actors[s.A].String()
@@ -385,6 +436,9 @@ func (r *Runner) ExecTx(s Step) *TxOutcome {
 func (r *Runner) ExecBlock(s Step) *BlockOutcome {
 	w := r.W
 	o := &BlockOutcome{Idx: r.Idx, Step: s, Pre: r.Cur}
+	if r.NeedPending {
+		o.PendingMod, o.PendingCoins = r.PendingModRewards()
+	}
 	o.EndRes = w.EndBlock()
 	o.EndEv = ParseEvents(o.EndRes.Events)
 	o.PostEnd = w.Snapshot(w.Ctx)
